@@ -35,7 +35,8 @@ COMPONENTS = {
 }
 EXPECTED_PROBES = ["empty_output_partition", "empty_output_with_external_tempdir",
                    "previous_dataset_overwritten", "ge_11_partitions", "missing_rows_present",
-                   "packed_frame_repacked"]
+                   "packed_frame_repacked", "input_presorted_in_11_or_12_partitions",
+                   "tempdir_next_to_dataset_sharing_its_path_prefix"]
 
 
 def cases(tier, base_seed):
@@ -116,6 +117,10 @@ def run_case(case):
                 probes["empty_output_with_external_tempdir"] = 1
         if case["npartitions"] >= 11:
             probes["ge_11_partitions"] = 1
+        if case["parts"].get("presorted"):
+            probes["input_presorted_in_11_or_12_partitions"] = 1
+        if case["tempdir"] == "ext_sibling":
+            probes["tempdir_next_to_dataset_sharing_its_path_prefix"] = 1
         if any(v is None for v in gen.col_of(spec, spec["active"])["values"]):
             probes["missing_rows_present"] = 1
         bad = (e1.check_layout(ds, spec["n"]) or e1.check_rows(ds, spec, case["p"])
